@@ -132,7 +132,7 @@ func runJobs(bin map[bool]string, jobs []job, timeout time.Duration, deadline ti
 	return outs
 }
 
-var panicRe = regexp.MustCompile(`(?m)^(panic: .*|fatal error: .*)$`)
+var panicRe = regexp.MustCompile(`(panic: [^\n]*|fatal error: [^\n]*)`)
 var frameRe = regexp.MustCompile(`(?m)^(github\.com/yandex/mysync/internal/[^\s(]+)\(`)
 var raceRe = regexp.MustCompile(`WARNING: DATA RACE`)
 
@@ -147,11 +147,14 @@ func classifyDeath(o *outcome) (*violation, string) {
 		idx := strings.Index(st, m)
 		rest := st[idx:]
 		fr := ""
-		for _, f := range frameRe.FindAllStringSubmatch(rest, -1) {
-			if strings.Contains(f[1], "/verifsim") {
+		for _, l := range strings.Split(rest, "\n") {
+			if !strings.HasPrefix(l, "github.com/yandex/mysync/internal/") || strings.Contains(l, "/verifsim") {
 				continue
 			}
-			fr = f[1]
+			if i := strings.LastIndex(l, "("); i > 0 {
+				l = l[:i]
+			}
+			fr = l
 			break
 		}
 		if fr == "" {
@@ -302,6 +305,7 @@ func cmdCheck(id, tier string) int {
 	var cands []candidate
 	harnessTrouble := []string{}
 	notes := map[string]int{}
+	noteEx := map[string]string{}
 	for i, o := range outs {
 		if o == nil {
 			agg.skipped++
@@ -318,6 +322,7 @@ func cmdCheck(id, tier string) int {
 				cands = append(cands, candidate{v: *v, o: o})
 			} else {
 				notes[v.Signature]++
+				noteEx[v.Signature] = fmt.Sprintf("%s/%d", jobs[i].fam.family, jobs[i].index)
 			}
 			continue
 		}
@@ -333,6 +338,7 @@ func cmdCheck(id, tier string) int {
 				cands = append(cands, candidate{v: v, o: o, spec: o.res.Spec})
 			} else {
 				notes[v.Signature]++
+				noteEx[v.Signature] = fmt.Sprintf("%s/%d", jobs[i].fam.family, jobs[i].index)
 			}
 		}
 		if len(o.res.Stats.Unknown) > 0 {
@@ -342,7 +348,7 @@ func cmdCheck(id, tier string) int {
 		}
 	}
 	for sig, n := range notes {
-		fmt.Printf("NOTE: violation of another property's monitor seen %d time(s): %s\n", n, sig)
+		fmt.Printf("NOTE: violation of another property's monitor seen %d time(s): %s (e.g. %s seed %d)\n", n, sig, noteEx[sig], seed)
 	}
 	if len(harnessTrouble) > 0 {
 		for _, h := range harnessTrouble {
